@@ -39,6 +39,16 @@ PROPS["C05"] = {
     "assumptions": ["endpoints do not re-enter the router while a message is being fanned out (recording endpoints)"],
 }
 
+PROPS["C09"] = {
+    "suites": [("comp_switch", "gen_cases")],
+    "rule": "3 rules x 1..4 (thorough: 5) switches x every initial configuration x every single operation (assignment On/Off via value or bool_value, client write naming one, "
+            "two (every ordered pair, every value pair), all, none or an unknown switch, selected_value(s) of one, two, all, none) each on a fresh real Driver, so every transition of the "
+            "reachable state graph is compared; plus random operation sequences; distinct by (rule, state before, operation)",
+    "exhaustive": True,
+    "trusted_base": ["published messages observed through a recording router client"],
+    "assumptions": [],
+}
+
 MANIFEST_TEXT = {
     "C20": {
         "text": "Kernel-checked theorem C20 (lean/Indi/Properties/C20.lean): for every class table passing the decidable well-formedness check, and every two constructed "
@@ -77,5 +87,14 @@ MANIFEST_TEXT = {
         "note": "Trusted: Lean kernel + standard axioms; class flags and default policy from tools/extract.py; recording endpoints; the delivery condition itself is hand-modelled (deliverCond) "
                 "and proved equal to the specification table `allows` for all 6 cases; its tie to router.py is the correspondence.",
         "technique": "Lean 4 refinement proof (blob_routing vs history function) + differential correspondence",
+    },
+    "C09": {
+        "text": "Kernel-checked theorems (lean/Indi/Properties/C09.lean) for ANY number of switches, ANY configuration and ANY operation sequence: assignAt_le_one / C09_at_most_one "
+                "(AtMostOne, OneOfMany: at most one On in every state and every published snapshot), assignAt_eq_one / C09_exactly_one (OneOfMany keeps exactly one), "
+                "assignAt_anyOfMany_frame / C09_any_of_many (only the named switch changes), C09_on_stays_on; lifted to client writes naming several switches, selected_value(s) and whole "
+                "histories by induction (run_inv). The model (Switch.assignAt = apply_rule + store + publish) is tied to vectors.py/elements.py by an exhaustive transition-by-transition "
+                "correspondence on real Driver instances; oracle = Spec.Switch.holds evaluated in Lean on the observed before/snapshots/after.",
+        "note": "Trusted: Lean kernel + standard axioms; the correspondence harness; only enabled vectors publish (disabled properties are C07's subject).",
+        "technique": "Lean 4 transition invariants + induction over operation sequences + exhaustive transition correspondence",
     },
 }
